@@ -26,7 +26,7 @@ LEVEL_NOTE = (
     "Trusted: the injection code in props/c20.py. Deviations injected into eigenvectors are >= 1e-3 (the library's "
     "orthonormality test has rtol 1e-5). Shared energies are exactly equal. Bounds as C01."
 )
-TECHNIQUE = "property-based testing (Hypothesis) with fault-injected inputs; reject-or-be-finite oracle"
+TECHNIQUE = "property-based testing (Hypothesis) with fault-injected inputs; reject-or-be-finite oracle + coverage-guided fuzzing stage (atheris/libFuzzer driving the same strategy and oracle, thorough tier only)"
 BUDGET = {"quick": 1500, "thorough": 40000}
 FUZZ = {"quick": 0, "thorough": 48000}  # executions of the coverage-guided stage (vlib/fuzz.py)
 SHRINK_SECONDS = {"quick": 30, "thorough": 150}
